@@ -8,12 +8,14 @@ use crate::types::{FixedHeader, MAX_PACKET_SIZE, packet_type};
 use crate::utils::{decode_variable_length, truncate_pages};
 
 use super::{Decoded, Encoded};
-use super::{Packet, decode::decode_packet, encode::EncodeLtd, packet::Publish};
+use super::encode::{EncodeLtd, var_int_len_u32};
+use super::{Packet, decode::decode_packet, packet::Publish};
 
 pub struct Codec {
     state: Cell<DecodeState>,
     max_in_size: Cell<u32>,
     max_out_size: Cell<u32>,
+    max_out_frame: Cell<u32>,
     min_chunk_size: Cell<u32>,
     flags: Cell<CodecFlags>,
     encoding_payload: Cell<Option<NonZeroU32>>,
@@ -44,6 +46,7 @@ impl Codec {
             state: Cell::new(DecodeState::FrameHeader),
             max_in_size: Cell::new(0),
             max_out_size: Cell::new(0),
+            max_out_frame: Cell::new(0),
             min_chunk_size: Cell::new(0),
             flags: Cell::new(CodecFlags::empty()),
             encoding_payload: Cell::new(None),
@@ -89,11 +92,25 @@ impl Codec {
     /// If max size is set to `0`, size is unlimited.
     /// By default max size is set to `0`
     pub fn set_max_outbound_size(&self, mut size: u32) {
+        self.max_out_frame.set(size);
         if size > 5 {
             // fixed header = 1, var_len(remaining.max_value()) = 4
             size -= 5;
         }
         self.max_out_size.set(size);
+    }
+
+    /// Check complete frame size (fixed header included) against outbound limit
+    fn check_frame_size(&self, content_size: u32) -> Result<(), EncodeError> {
+        let max = self.max_out_frame.get();
+        if max != 0
+            && u64::from(content_size) + u64::from(var_int_len_u32(content_size)) + 1
+                > u64::from(max)
+        {
+            Err(EncodeError::OverMaxPacketSize)
+        } else {
+            Ok(())
+        }
     }
 
     pub(crate) fn retain_available(&self) -> bool {
@@ -335,6 +352,7 @@ impl Codec {
                     if content_size > max_size as usize {
                         Err(EncodeError::OverMaxPacketSize)
                     } else {
+                        self.check_frame_size(content_size as u32)?;
                         pkt.encode(dst, content_size as u32)?; // safe: max_size <= u32 max value
                         Ok(())
                     }
@@ -345,6 +363,7 @@ impl Codec {
                 if content_size > max_size {
                     return Err(EncodeError::OverMaxPacketSize);
                 }
+                self.check_frame_size(content_size)?;
 
                 pkt.encode(dst, content_size)?; // safe: max_size <= u32 max value
 
@@ -382,6 +401,7 @@ impl Clone for Codec {
             state: Cell::new(DecodeState::FrameHeader),
             max_in_size: self.max_in_size.clone(),
             max_out_size: self.max_out_size.clone(),
+            max_out_frame: self.max_out_frame.clone(),
             min_chunk_size: self.min_chunk_size.clone(),
             flags: Cell::new(CodecFlags::empty()),
             encoding_payload: Cell::new(None),
